@@ -163,7 +163,7 @@ func c11ProcColours(t *rapid.T) {
 	height, nitems := 12, len(all)
 	// or: the same lines grouped into multi-line records (--read0), in a window too short to show
 	// all of them, so that the record at the edge is cut: the rows that are visible keep their colours
-	multiline := rapid.IntRange(0, 2).Draw(t, "multilineRecords") == 0
+	multiline := rapid.IntRange(0, 1).Draw(t, "multilineRecords") == 0
 	if multiline {
 		var recs []string
 		recs = append(recs, "pointer-line")
